@@ -8,9 +8,10 @@ VAL_BOUND = 40
 EXACT_BOUND = 1 << 50
 
 
-def build(W=4, pausable=False, packets=None, extra_defs=(), stack_len=64):
+def build(W=4, pausable=False, packets=None, extra_defs=(), stack_len=64, san="asan"):
     """packets=None: scalar packets (ADEPT_*_PACKET_SIZE=1) so that ADEPT_MULTIPASS_SIZE=W decides the block width;
-    packets='sse2'|'avx'|'avx512': real packets, W is then the packet size"""
+    packets='sse2'|'avx'|'avx512': real packets, W is then the packet size;
+    san='none': no sanitizer, i.e. the system allocator with its real (16-byte) alignment guarantee"""
     defs = ["ADEPT_INITIAL_STACK_LENGTH=%d" % stack_len] + list(extra_defs)
     extra = ["-std=c++17"]
     if packets is None:
@@ -19,7 +20,7 @@ def build(W=4, pausable=False, packets=None, extra_defs=(), stack_len=64):
         extra += {"sse2": ["-msse2"], "avx": ["-mavx"], "avx512": ["-mavx512f"]}[packets]
     if pausable:
         defs.append("ADEPT_RECORDING_PAUSABLE")
-    return vbuild.build("tape", DRV, defines=defs, extra=extra)
+    return vbuild.build("tape", DRV, defines=defs, extra=extra, san=san)
 
 
 PACKET_W = {"sse2": 2, "avx": 4, "avx512": 8}
@@ -359,3 +360,311 @@ def dual_eval(ops, impl_lines):
                 gi = before.get(k, {}) if i == k else env[i][1]
                 env[k] = (env[k][0], _dadd(env[k][1], _dscale(gi, m)))
     return env, inputs
+
+
+# ------------------------------------------------------------------ binary64 tapes (C02 / C13: order of operations, bit for bit)
+# The driver prints every number as the 16 hex digits of its bit pattern after `hex 1` (any NaN as `nan`); the model family
+# `tape` has the operations ftape/findep/fdep/fjac/fsweep (lean/Driver/TapeDrv.lean) which run the same generic definitions
+# on Float.  The recording is taken from the implementation's own dump.
+import struct as _struct
+
+INF = float("inf")
+NAN = float("nan")
+
+
+def f2bits(x):
+    return "nan" if x != x else "%016x" % _struct.unpack("<Q", _struct.pack("<d", x))[0]
+
+
+def bits2f(s):
+    return NAN if s == "nan" else _struct.unpack("<d", _struct.pack("<Q", int(s, 16)))[0]
+
+
+def ftok(x):
+    """a double as a token that atof() reads back exactly (C99 hex float)"""
+    if x != x:
+        return "nan"
+    if x in (INF, -INF):
+        return "inf" if x > 0 else "-inf"
+    return x.hex()
+
+
+def fval(rng, nonfinite=False):
+    """multiplier / value palette: ordinary random doubles, decimals that are not dyadic, huge and tiny magnitudes
+    (products overflow and underflow), denormals, signed zeros, +-1, small integers; optionally Inf / NaN"""
+    x = rng.random()
+    if nonfinite and x < 0.08:
+        return rng.choice([INF, -INF, NAN])
+    if x < 0.40:
+        return rng.uniform(-2, 2)
+    if x < 0.48:
+        return float(rng.randint(-3, 3))
+    if x < 0.58:
+        return rng.choice([0.1, 0.2, 0.3, 1.0 / 3, 2.0 / 3, 0.7, 1.1, -0.1, -0.3, 1e-3, 1.7, -2.0 / 3])
+    if x < 0.68:
+        return rng.choice([-1, 1]) * 10 ** rng.uniform(-8, 8)
+    if x < 0.74:
+        return rng.choice([1e160, -1e160, 1e-170, -1e-170, 1.7976931348623157e308, 5e-324, -5e-324, 2.2250738585072014e-308])
+    if x < 0.82:
+        return rng.choice([0.0, -0.0])
+    if x < 0.88:
+        return rng.choice([1.0, -1.0])
+    return rng.uniform(-1, 1) * 2.0 ** rng.randint(-30, 30)
+
+
+class FGen:
+    """random straight-line programs over NON-integer doubles.  No value tracking: the recording is read back from the
+    implementation (`tape` after `hex 1`).  Statement forms: construction, copies, plain and compound assignment of
+    expression trees (height <= 2, float constants), add/append_derivative_dependence in scalar and array form with
+    0..12 operands (repeated operands, cancelling pairs m,-m on one index, the left-hand side among its own operands,
+    zero multipliers), non-LIFO deletion; `fanin` adds a statement whose >= 3 operands all depend on the same variable
+    (the sums whose rounding depends on the order of the additions)."""
+
+    def __init__(self, rng, nonfinite=False):
+        self.rng, self.nonfinite = rng, nonfinite
+        self.live, self.nxt, self.ops, self.last_lhs = [], 0, [], None
+        self.hot_src, self.hot_dst = [], []
+
+    def emit(self, s):
+        self.ops.append(s)
+
+    def val(self, ordinary=False):
+        return self.rng.uniform(-2, 2) if ordinary else fval(self.rng, self.nonfinite)
+
+    def new(self, v=None):
+        k = self.nxt; self.nxt += 1
+        self.live.append(k)
+        self.emit("new %d %s" % (k, ftok(self.val() if v is None else v)))
+        self.last_lhs = k
+        return k
+
+    def _expr(self, depth):
+        r = self.rng
+        if depth == 0 or r.random() < 0.25:
+            if r.random() < 0.75:
+                return ["v%d" % r.choice(self.live)], True
+            return ["c" + ftok(self.val())], False
+        op = r.choice(["add", "sub", "mul", "mul", "add", "neg"])
+        if op == "neg":
+            t, a = self._expr(depth - 1)
+            return (["neg"] + t, a) if a else (t, a)
+        t1, a1 = self._expr(depth - 1)
+        t2, a2 = self._expr(depth - 1)
+        if not a1 and not a2:
+            return t1, a1
+        return [op] + t1 + t2, True
+
+    def expr(self, depth):
+        for _ in range(50):
+            t, a = self._expr(depth)
+            if a:
+                return t
+        return ["v%d" % self.rng.choice(self.live)]
+
+    def terms(self, k, n):
+        r = self.rng
+        ts = [(r.choice(self.live), self.val()) for _ in range(n)]
+        if n >= 2 and r.random() < 0.3:        # the same operand twice in one statement
+            ts[r.randrange(n)] = (ts[r.randrange(n)][0], self.val())
+        if n >= 2 and r.random() < 0.25:       # a cancelling pair on one index
+            a, b = r.sample(range(n), 2)
+            ts[b] = (ts[a][0], -ts[a][1])
+        if n >= 1 and r.random() < 0.2:        # the left-hand side among its own operands
+            ts[r.randrange(n)] = (k, self.val())
+        return " ".join("%d %s" % (i, ftok(m)) for i, m in ts)
+
+    def statement(self):
+        r = self.rng
+        live = self.live
+        x = r.random()
+        if x < 0.05 or len(live) < 2:
+            self.new()
+        elif x < 0.08 and len(live) > 3:
+            k = r.choice(live[1:])
+            live.remove(k)
+            self.emit("del %d" % k)
+        elif x < 0.11:
+            k = self.nxt; self.nxt += 1
+            self.emit("newc %d %d" % (k, r.choice(live)))
+            live.append(k); self.last_lhs = k
+        elif x < 0.14:
+            k = r.choice(live)
+            self.emit("setp %d %s" % (k, ftok(self.val()))); self.last_lhs = k
+        elif x < 0.24:
+            k = r.choice(live)
+            c = r.choice(["cadd", "csub", "cmul"])
+            if r.random() < 0.4:
+                self.emit("%s %d c%s" % (c, k, ftok(self.val())))
+                if c == "cmul":
+                    self.last_lhs = k
+            else:
+                self.emit("%s %d v%d" % (c, k, r.choice(live))); self.last_lhs = k
+        elif x < 0.48:
+            k = r.choice(live)
+            n = r.choice([0, 1, 2, 3, 3, 4, 5, 6, 7, 9, 12])
+            self.emit(("adepv %s %d %d : %s" % (r.choice("arc"), k, r.choice([1, 1, 2, 3]), self.terms(k, n))).rstrip())
+            self.last_lhs = k
+        elif x < 0.55:
+            k = r.choice(live)
+            self.emit("adep %d %d %s" % (k, r.choice(live), ftok(self.val()))); self.last_lhs = k
+        elif x < 0.66 and self.last_lhs in live:
+            k = self.last_lhs
+            if r.random() < 0.5:
+                n = r.choice([0, 1, 2, 3, 5])
+                self.emit(("apdepv %s %d %d : %s" % (r.choice("arc"), k, r.choice([1, 2, 2, 3]), self.terms(k, n))).rstrip())
+            else:
+                self.emit("apdep %d %d %s" % (k, r.choice(live), ftok(self.val())))
+        else:
+            k = r.choice(live)
+            self.emit("asg %d %s" % (k, " ".join(self.expr(r.choice([0, 1, 1, 2, 2])))))
+            self.last_lhs = k
+
+    def fanin(self):
+        """u_1..u_q (q >= 3) each a multiple of the same source(s), then y = sum c_j u_j; the source is used by q later
+        statements (fan-out, the sums of the reverse sweep), y has q operands that are all active with respect to it"""
+        r = self.rng
+        srcs = [r.choice(self.live) for _ in range(r.choice([1, 1, 2]))]
+        q = r.randint(3, 8)
+        us = []
+        for _ in range(q):
+            u = self.new(0.0)
+            self.emit("adepv a %d 1 : %s" % (u, " ".join("%d %s" % (s, ftok(self.val(ordinary=True))) for s in srcs)))
+            us.append(u)
+        y = r.choice(self.live) if r.random() < 0.5 else self.new(0.0)
+        r.shuffle(us)
+        self.emit("adepv a %d 1 : %s" % (y, " ".join("%d %s" % (u, ftok(self.val(ordinary=True))) for u in us)))
+        self.last_lhs = y
+        self.hot_src += srcs; self.hot_dst.append(y)
+
+    def program(self, nstmt, nfan=1):
+        at = sorted(self.rng.randint(0, nstmt) for _ in range(nfan))
+        for i in range(nstmt + 1):
+            while at and at[0] == i:
+                at.pop(0); self.fanin()
+            if i < nstmt:
+                self.statement()
+
+    def lists(self, n, m):
+        """independent / dependent handle lists (repeats allowed): random live variables, with the sources / targets of the
+        fan-in statements planted at random positions and, half of the time, at the LAST position (the short last block)"""
+        r = self.rng
+        indep = [r.choice(self.live) for _ in range(n)]
+        dep = [r.choice(self.live) for _ in range(m)]
+        for lst, hot in ((indep, [h for h in self.hot_src if h in self.live]), (dep, [h for h in self.hot_dst if h in self.live])):
+            for h in hot:
+                if r.random() < 0.8:
+                    lst[r.randrange(len(lst))] = h
+            if hot and r.random() < 0.5:
+                lst[-1] = r.choice(hot)
+        return indep, dep
+
+
+def parse_ftape(line):
+    """'T nst nop | lhs:BITS*idx,… | …' (hex mode) -> [(lhs, [(float, idx)])]"""
+    assert line.startswith("T "), line
+    out = []
+    for p in line.split(" | ")[1:]:
+        p = p.strip()
+        if not p:
+            continue
+        lhs, _, ops = p.partition(":")
+        out.append((int(lhs), [(bits2f(o.rpartition("*")[0]), int(o.rpartition("*")[2])) for o in ops.split(",")] if ops else []))
+    return out
+
+
+def handle_indices(ops, il):
+    idx = {}
+    for o, l in zip(ops, il):
+        w = o.split()
+        if w[0] in ("new", "newd", "newc") and l.startswith("ok "):
+            idx[int(w[1])] = int(l.split()[1])
+    return idx
+
+
+def ftape_fwd(tape, g):
+    """Stack::compute_tangent_linear / one lane of jacobian_forward_kernel(_extra): a = 0; a += m*g[i] in push order"""
+    for lhs, ops in tape:
+        a = 0.0
+        for m, i in ops:
+            a = a + m * g[i]
+        g[lhs] = a
+    return g
+
+
+def ftape_rev(tape, g):
+    """Stack::compute_adjoint: a = g[lhs]; g[lhs] = 0; if (a != 0.0) g[i] += m*a in push order"""
+    for lhs, ops in reversed(tape):
+        a = g[lhs]; g[lhs] = 0.0
+        if a != 0.0:
+            for m, i in ops:
+                g[i] = g[i] + m * a
+    return g
+
+
+def fjac_oracle(tape, N, W, xi, yi, forward, dO, iO, ncells):
+    """the Jacobian routines of jacobian.cpp in Python floats (IEEE binary64, the same operations in the same order),
+    written from the C++ and independent of the Lean model: forward lane by lane; reverse block by block with the
+    block-wide `n_non_zero` flag (a lane whose own a[i] is zero still executes += m*0 when another lane is non-zero)"""
+    n, m = len(xi), len(yi)
+    dO = n if dO <= 0 else dO
+    iO = m if iO <= 0 else iO
+    out = [-777.0] * ncells
+    if forward:
+        for j, x in enumerate(xi):
+            g = [0.0] * N; g[x] = 1.0
+            ftape_fwd(tape, g)
+            for i, y in enumerate(yi):
+                out[i * dO + j * iO] = g[y]
+        return out
+    for first in range(0, m, W):
+        size = min(W, m - first)
+        lanes = []
+        for l in range(size):
+            g = [0.0] * N; g[yi[first + l]] = 1.0
+            lanes.append(g)
+        for lhs, ops in reversed(tape):
+            a = []
+            for g in lanes:
+                a.append(g[lhs]); g[lhs] = 0.0
+            if any(v != 0.0 for v in a):
+                for mm, i in ops:
+                    for l, g in enumerate(lanes):
+                        g[i] = g[i] + mm * a[l]
+        for ii, x in enumerate(xi):
+            for l in range(size):
+                out[ii * iO + (first + l) * dO] = lanes[l][x]
+    return out
+
+
+def fbits_line(prefix, vals):
+    return prefix + " " + " ".join(f2bits(v) for v in vals)
+
+
+def tape_nonfinite(tape):
+    return any(m != m or m in (INF, -INF) for _, ops in tape for m, _ in ops)
+
+
+def mult_stats(tape, notes):
+    """census of the multipliers of a dumped binary64 recording (evidence: what the generator really put on the tapes)"""
+    d = notes.setdefault("f_multipliers", {})
+    for lhs, ops in tape:
+        seen = set()
+        for m, i in ops:
+            if m != m:
+                k = "nan"
+            elif m in (INF, -INF):
+                k = "inf"
+            elif m == 0.0:
+                k = "-0.0" if f2bits(m)[0] == "8" else "+0.0"
+            elif abs(m) < 2.2250738585072014e-308:
+                k = "subnormal"
+            elif m == int(m) and abs(m) < 1e15:
+                k = "integer"
+            else:
+                k = "non-integer"
+            d[k] = d.get(k, 0) + 1
+            if i in seen:
+                notes["f_statements_with_repeated_operand"] = notes.get("f_statements_with_repeated_operand", 0) + 1
+            seen.add(i)
+            if i == lhs:
+                notes["f_operands_equal_to_lhs"] = notes.get("f_operands_equal_to_lhs", 0) + 1
